@@ -11,6 +11,7 @@ import (
 	"bytes"
 	"errors"
 	"fmt"
+	"io"
 	"math"
 	"math/rand/v2"
 	"reflect"
@@ -262,6 +263,24 @@ func roundTrip(w *run.W, v reflect.Value, os *optSet, in rtInfo) {
 		w.Violate("unmarshal-refused", sig("unmarshal", errClass(err), ""), "%s: Unmarshal of Marshal output under %s failed: %v\n type: %v\n output: %s", in.label, os.name, err, t, run.Trunc(string(b1), 1200))
 		return
 	}
+	// the same text arriving through an io.Reader in pieces must decode to the same value (every third text)
+	if h := fnvBytes(b1); len(b1) >= 6 && h%3 == 0 {
+		q2 := reflect.New(t)
+		n := 1 + int(h>>8)%23
+		if err := json.UnmarshalRead(&pieceReader{b: b1, n: n}, q2.Interface(), opts...); err != nil {
+			w.Violate("unmarshal-refused", sig("unmarshal-read", errClass(err), ""), "%s: UnmarshalRead of Marshal output (pieces of %d bytes) under %s failed: %v\n type: %v\n output: %s", in.label, n, os.name, err, t, run.Trunc(string(b1), 1200))
+			return
+		}
+		ba, erra := json.Marshal(q.Interface(), opts...)
+		bb, errb := json.Marshal(q2.Interface(), opts...)
+		if (erra == nil) != (errb == nil) || !(bytes.Equal(ba, bb) || (!os.deterministic && equalModuloOrder(ba, bb))) {
+			field, class := jsonDiff(ba, bb)
+			w.Violate("bytes-differ", sig("reader-route", class, field), "%s under %s: the value decoded by UnmarshalRead (pieces of %d bytes) differs from the one decoded by Unmarshal\n type: %v\n text: %s\n via Unmarshal: %s\n via UnmarshalRead: %s", in.label, os.name, n, t,
+				run.Trunc(string(b1), 800), run.Trunc(string(ba), 800), run.Trunc(string(bb), 800))
+			return
+		}
+		w.Count("reader_route_round_trips", 1)
+	}
 	if in.noFixedPoint {
 		w.Count("outside_layout_domain_acceptance_and_equality_only", 1)
 	} else {
@@ -317,6 +336,30 @@ func roundTrip(w *run.W, v reflect.Value, os *optSet, in rtInfo) {
 		}
 		w.Count("equality_checked", 1)
 	}
+}
+
+// pieceReader hands out b in pieces of n bytes.
+type pieceReader struct {
+	b []byte
+	n int
+}
+
+func (r *pieceReader) Read(p []byte) (int, error) {
+	if len(r.b) == 0 {
+		return 0, io.EOF
+	}
+	k := min(r.n, len(p), len(r.b))
+	copy(p, r.b[:k])
+	r.b = r.b[k:]
+	return k, nil
+}
+
+func fnvBytes(b []byte) uint64 {
+	var h uint64 = 1469598103934665603
+	for _, c := range b {
+		h = (h ^ uint64(c)) * 1099511628211
+	}
+	return h
 }
 
 func show(v reflect.Value) string { return run.Trunc(fmt.Sprintf("%+v", v.Interface()), 600) }
